@@ -508,7 +508,7 @@ impl WhenCalledBuilder<'_> {
     /// ```
     pub fn will_return_boolean(self, value: bool) {
         // Ensure the target function returns a bool
-        if !self.expected_signature.trim().ends_with("-> bool") {
+        if !signature_returns_bool(self.expected_signature) {
             panic!(
                 "Signature mismatch: will_return_boolean requires a function returning bool but got {}",
                 self.expected_signature
@@ -518,6 +518,31 @@ impl WhenCalledBuilder<'_> {
         let guard = self.when.will_return_boolean_guard(value);
         self.lib.guards.push(guard);
     }
+}
+
+/// Returns true if the return type of the outermost function in a function-pointer type name
+/// (e.g. `unsafe extern "C" fn(i32) -> bool`) is exactly `bool`. A type that merely ends in
+/// `-> bool`, such as `fn() -> fn() -> bool`, does not qualify.
+fn signature_returns_bool(signature: &str) -> bool {
+    let Some(open) = signature.find('(') else {
+        return false;
+    };
+
+    let mut depth = 0usize;
+    for (i, c) in signature[open..].char_indices() {
+        match c {
+            '(' => depth += 1,
+            ')' => {
+                depth -= 1;
+                if depth == 0 {
+                    return signature[open + i + 1..].trim() == "-> bool";
+                }
+            }
+            _ => {}
+        }
+    }
+
+    false
 }
 
 pub struct WhenCalledBuilderAsync<'a> {
